@@ -1,4 +1,4 @@
-import FluentProofs.ParserRuntime
+import FluentProofs.ParserLinesWF
 /-!
 # C05 — the runtime parser agrees with the full parser apart from comments
 
@@ -6,24 +6,75 @@ Model: `parse` / `parseRuntime` of `FluentModel/Parser.lean` (transcriptions of 
 and `Parser::parse_runtime`; they share `getMessage`/`getTerm` exactly as the Rust code shares
 `get_message`/`get_term`).
 
-Full statement (kept visible): `C05_full_statement`.  Proved so far:
+Proved:
+* `C05_full` (= `C05_full_statement`): for EVERY byte source on which both parsers finish, the runtime parser
+  returns exactly the messages and terms of the full parser (same order, same content, `comment := none`);
+  `C05_full_string`: for every `String` both parsers finish (C01) and agree in this sense.
+  Proof (`FluentProofs/ParserLinesSim.lean`): a simulation between the two entry loops.  Relation: both cursors
+  are line starts (or EOF) and no position where a message or term could start (a line start holding `[a-zA-Z]`
+  or `-`) lies between them.  A parser whose cursor is not such a position (`#` comment — well-formed, mixed
+  levels, malformed `#x`, CRLF —, or any byte on which `get_message` fails at once) steps alone: it emits no
+  message/term, and neither `get_comment`, `skip_comment`, `skip_blank_block` nor the junk recovery
+  `skip_to_next_entry_start` passes a message/term start (`getEntry_lines`, `getEntryRuntime_lines`).
+  Otherwise both cursors coincide and the dispatchers run the same `get_term`/`get_message` (`C05_dispatch`).
+* `C05_junk_errors` (second sentence): when every line whose first byte is `#` matches `#{1,3}( .*)?`
+  (`CommentsWellFormed`, a decidable predicate on the bytes; CRLF line ends allowed) the Junk entries and the
+  complete error lists coincide as well; `C05_complete_string` puts both sentences together for every `String`.
+  Proof (`FluentProofs/ParserLinesWF.lean`): a second simulation — cursors are non-blank line starts and only `#`
+  lines and blank lines lie between them; `get_comment` cannot fail on a well-formed first line, so a parser at a
+  `#` line steps alone without Junk; otherwise the cursors coincide and the dispatchers are the same function.
+  The hypothesis is needed: see the `#x` example at the end.
 * `C05_dispatch`: on every entry whose first byte is not `#` the two dispatchers are the same function
-  (same message/term, same error, same cursor) — the lock-step fact the property's mechanism rests on;
+  (same message/term, same error, same cursor);
 * `C05_no_hash_partial`: for every source without a `#` byte the two parsers return identical results
   (all entries, all Junk, the complete error list).
-The `#`-line case (comment vs. skip_comment re-synchronisation at the next non-comment line) is not yet a
-theorem; it is covered by the correspondence harness (comment-placement generator) and by the property
-predicate evaluated on the implementation.
 -/
 namespace FluentProofs.C05
 open FluentModel.Syntax
 
-/-- full statement of the property on the model (first sentence; the second sentence adds: when every line
-whose first byte is `#` matches `#{1,3}( .*)?`, also `b₂`'s Junk entries and `e₂ = e₁`) -/
+/-- full statement of the property on the model (first sentence; proved below: `C05_full`) -/
 def C05_full_statement : Prop :=
   ∀ (s : Src) (b₁ b₂ : Resource Span) (e₁ e₂ : List PErr),
     parse s = .done (b₁, e₁) → parseRuntime s = .done (b₂, e₂) →
     msgsTerms b₂ = msgsTerms b₁
+
+/-- **C05, first sentence**: for every source, the runtime parser returns exactly the messages and terms (same
+order, same content, no comments) that the full parser returns. -/
+theorem C05_full : C05_full_statement := by
+  intro s b₁ b₂ e₁ e₂ h1 h2
+  open FluentProofs.Parser in
+  exact (sim_msgsTerms s _ _ _ _ (Nat.le_refl _) [] [] none 0 _ [] [] _ (b₁, e₁) (b₂, e₂) (start_LSE s) (start_LSE s)
+    (Zone.refl _ _) rfl h1 h2).symm
+
+/-- **C05 for every `String`**: both parsers finish (C01) and return the same messages and terms. -/
+theorem C05_full_string (str : String) :
+    ∃ b₁ e₁ b₂ e₂, parse str.toUTF8.data = .done (b₁, e₁) ∧ parseRuntime str.toUTF8.data = .done (b₂, e₂) ∧
+      msgsTerms b₂ = msgsTerms b₁ := by
+  open FluentProofs.Parser in
+  have hs := asciiThenBoundary_of_string str
+  have hA := skipBlankBlock_after str.toUTF8.data 0
+  have hb := hA.bnd hs (bnd_zero _)
+  obtain ⟨⟨b₁, e₁⟩, h1, _⟩ : Done str.toUTF8.data (parse str.toUTF8.data) :=
+    parseLoop_done hs _ [] [] none 0 _ hb.le hb (by omega) (by simp) (by simp) (by simp)
+  obtain ⟨⟨b₂, e₂⟩, h2, _⟩ : Done str.toUTF8.data (parseRuntime str.toUTF8.data) :=
+    parseRuntimeLoop_done hs _ [] [] _ (fun _ => hb) (by omega) (by simp) (by simp)
+  exact ⟨b₁, e₁, b₂, e₂, h1, h2, C05_full _ b₁ b₂ e₁ e₂ h1 h2⟩
+
+/-- **C05, second sentence**: when every `#` line of the input is a well-formed comment line, the two parsers
+also agree on all Junk entries (same spans, in order) and on the complete error list. -/
+theorem C05_junk_errors (s : Src) (hwf : FluentProofs.Parser.CommentsWellFormed s) (b₁ b₂ : Resource Span)
+    (e₁ e₂ : List PErr) (h1 : parse s = .done (b₁, e₁)) (h2 : parseRuntime s = .done (b₂, e₂)) :
+    junkSpans b₂ = junkSpans b₁ ∧ e₂ = e₁ :=
+  FluentProofs.Parser.parse_runtime_junk s hwf b₁ b₂ e₁ e₂ h1 h2
+
+/-- **C05 for every `String`, both sentences**: both parsers finish; messages and terms agree; and if all `#`
+lines are well-formed comments, Junk and errors agree too. -/
+theorem C05_complete_string (str : String) :
+    ∃ b₁ e₁ b₂ e₂, parse str.toUTF8.data = .done (b₁, e₁) ∧ parseRuntime str.toUTF8.data = .done (b₂, e₂) ∧
+      msgsTerms b₂ = msgsTerms b₁ ∧
+      (FluentProofs.Parser.CommentsWellFormed str.toUTF8.data → junkSpans b₂ = junkSpans b₁ ∧ e₂ = e₁) := by
+  obtain ⟨b₁, e₁, b₂, e₂, h1, h2, h3⟩ := C05_full_string str
+  exact ⟨b₁, e₁, b₂, e₂, h1, h2, h3, fun hwf => C05_junk_errors _ hwf b₁ b₂ e₁ e₂ h1 h2⟩
 
 /-- lock-step: where no comment is involved both entry points run the same entry parser -/
 theorem C05_dispatch (s : Src) (fuel p : Nat) (h : s[p]? ≠ some (35 : UInt8)) :
@@ -50,5 +101,22 @@ example :
      | .done (b₁, e₁), .done (b₂, e₂) =>
        (msgsTerms b₁).length == 2 && (msgsTerms b₂).length == 2 && e₁.length == 1 && e₂.length == 1
      | _, _ => false) = true := by decide +kernel
+
+/-- test: the well-formedness predicate is decidable and holds for the source above -/
+example : FluentProofs.Parser.CommentsWellFormed
+    (FluentModel.strBytes "# c\na = 1\n## g\n\n### r\nx {\n-t = 2\n").toArray := by decide +kernel
+
+/-- test: the hypothesis of `C05_junk_errors` is needed.  In `#x⏎ foo⏎bar = 1⏎` the malformed comment line makes
+the full parser's Junk `0..8` (it runs to the next line that looks like an entry) while the runtime parser skips
+the `#` line and records Junk `3..8`; the message `bar` is found by both. -/
+example :
+    (match parse (FluentModel.strBytes "#x\n foo\nbar = 1\n").toArray,
+           parseRuntime (FluentModel.strBytes "#x\n foo\nbar = 1\n").toArray with
+     | .done (b₁, _), .done (b₂, _) =>
+       junkSpans b₁ == [⟨0, 8⟩] && junkSpans b₂ == [⟨3, 8⟩] && (msgsTerms b₁).length == 1 && (msgsTerms b₂).length == 1
+     | _, _ => false) = true := by decide +kernel
+
+example : ¬ FluentProofs.Parser.CommentsWellFormed (FluentModel.strBytes "#x\n foo\nbar = 1\n").toArray := by
+  decide +kernel
 
 end FluentProofs.C05
